@@ -528,4 +528,3 @@ func (k *c14Case) checkDiffer(merged prolly.Map) {
 			map[string]any{"via_differ": describeTree(w, viaDiffer), "patch_merge": describeTree(w, merged)})
 	}
 }
-
